@@ -7,6 +7,7 @@ import (
 	"os"
 	"os/exec"
 	"path/filepath"
+	"regexp"
 	"slices"
 	"strconv"
 	"strings"
@@ -106,6 +107,15 @@ func (r *c14) note(d *mdiff.Diff, mode string) {
 	}
 	if len(d.Chunks) >= 2 {
 		r.st.Note("chunks>=2")
+		if mode != "new" && atoi(mode) >= 3 {
+			r.st.Note("chunks>=2-with-context>=3")
+		}
+	}
+	for _, c := range d.Chunks {
+		if c.LEnd >= 100 || c.REnd >= 100 {
+			r.st.Note("line-numbers>=100")
+			break
+		}
 	}
 	for _, l := range append(slices.Clone(r.left), r.right...) {
 		if l == "" {
@@ -128,6 +138,9 @@ func (r *c14) Exec(op []string) string {
 		return "ok"
 	case "oracle":
 		r.gnu = c14patchBin != ""
+		if !r.gnu {
+			r.st.Note("gnu-patch-UNAVAILABLE")
+		}
 		return "ok"
 	case "l":
 		r.left = append(r.left, c13unline(op[1]))
@@ -250,13 +263,17 @@ func (r *c14) gnuPatch(text []byte, flag string) string {
 	if err == nil && string(got) == join(r.right) {
 		return ""
 	}
-	if flag == "--unified" && bytes.Contains(text, []byte(",0 +")) {
+	// F6 is about a hunk whose LEFT range is empty (`@@ -N,0 +…`: mdiff writes N where POSIX/GNU want N-1); the
+	// excuse used to be "the text contains `,0 +`" (also true of line contents and of every other hunk of the text)
+	if flag == "--unified" && c14emptyLeftHunk.Match(text) {
 		r.st.Note("gnu-patch-disagrees-on-empty-left-range(F6)")
 		return ""
 	}
 	r.st.Note("gnu-patch-DISAGREES")
 	return " patch=DISAGREE:" + strings.ReplaceAll(strings.TrimSpace(string(out)), " ", "_")
 }
+
+var c14emptyLeftHunk = regexp.MustCompile(`(?m)^@@ -\d+,0 \+`)
 
 // ---- generators ----
 
@@ -281,7 +298,8 @@ func c14gen(kind string) func(g *G) {
 		seed := c13genSeed()
 		c13pairs(g, seed, g.Scale(3, 4), g.Scale(1200, 6000), func(left, right []string) {
 			ops := c13case(left, right)
-			if g.Thorough() && g.Chance(1, 8) {
+			// GNU patch as a second opinion: 1 case in 8 (thorough), 1 in 32 (quick)
+			if g.Chance(1, g.Scale(32, 8)) {
 				ops = append(ops, "oracle patch")
 			}
 			if kind != "n" && g.Chance(1, 3) {
